@@ -189,6 +189,7 @@ class Tracer(object):
     def patch(self, *modules):
         """Replace `open` and `os` in the given (already imported) modules."""
         proxy = _OsProxy(self)
+        self.proxy = proxy      # callers may set attributes on it (e.g. proxy.getpid = stub)
         for mod in modules:
             saved = {}
             for name, repl in (('open', self.traced_open), ('os', proxy)):
